@@ -167,7 +167,9 @@ def _check_far(an, k, mono, expr, case, maxcase, tlimit):
             if not pd.values_equal(pv, truth):
                 return {"first_n": n, "polar": common.fmt(pv), "truth": common.fmt(truth), "oracle": "exact interpreter"}
         return None
-    except (refsem.OracleGiveUp, pd.CaseTimeout, ValueError):
+    except pd.CaseTimeout:
+        return None  # nothing further is evaluated in this process after an interrupted computation
+    except (refsem.OracleGiveUp, ValueError):
         pass
     s = an.solvers.get(sympify(k))
     if s is None:
